@@ -1615,7 +1615,7 @@ META = {
              "of the independent recursive C11 6.7.9 reference Spec/InitRef (simulation proof by induction on the "
              "reference's recursion; counterexample theorem for designated union-member switches).  End-to-end chain "
              "(static_image_correct): parseinit t inc i = ok st, InitRef.ref t inc i = ok r and the decidable class "
-             "imgClass t inc i (refClass; a C layout layOK; unions and designators not combined; string literals of "
+             "imgClass t inc i (refClass; a C layout layOK; no designator designates a union member other than the first; string literals of "
              "their character type's width; every stored value a constant of the member's kind) imply that emitdata "
              "succeeds on the list initadd/initclear built from parseinit's log and that the bytes of its data items "
              "equal image r.size r.writes: (1) parseinit_log_laminar — a machine-only invariant places every logged "
@@ -1642,7 +1642,8 @@ META = {
              "generated objects inside the proved class (drv_c07 `class`), the rest is differential only.  The "
              "hypotheses of emitdata_image_ev are no longer assumed: static_image_correct has hypotheses on "
              "(t, inc, i) only (imgClass, drv_c07 `imgclass`; evidence field static_image_coverage; the check raises "
-             "if imgClass holds while the driver's hyp flag is 0); outside imgClass (unions combined with designators, "
+             "if imgClass holds while the driver's hyp flag is 0); outside imgClass (arrays of unknown size other than scalar "
+             "elements with a flat expression list, designated non-first union members, "
              "non-constant values — static_image_correct_counterexample) the chain is differential only.  The model "
              "of funcinit is tied by the automatic-object stream: its memory (drv_c07 `auto`) must equal the bytes "
              "the executed IL leaves (ilpy) on EVERY object, also on the known findings (counter auto_model_agrees); "
